@@ -9,6 +9,9 @@
 
 mod budget;
 mod common;
+mod debug;
+mod genproj;
+mod project;
 mod driver;
 mod hashseed;
 mod rng;
@@ -98,6 +101,10 @@ fn main() {
             0
         }
         Some("replay") => driver::replay_main(&engines(), &args[2]),
+        Some("tryproj") => {
+            let seed: u64 = args[2].parse().expect("seed");
+            debug::tryproj(seed, args.get(3).is_some())
+        }
         Some("hashprobe") => {
             let mut orders = std::collections::BTreeSet::new();
             let mut stable = true;
